@@ -243,10 +243,21 @@ func (s *server) GetTable(ctx context.Context, req *btapb.GetTableRequest) (*bta
 func (s *server) DeleteTable(ctx context.Context, req *btapb.DeleteTableRequest) (*emptypb.Empty, error) {
 	s.mu.Lock()
 	defer s.mu.Unlock()
-	if _, ok := s.tables[req.Name]; !ok {
+	tbl, ok := s.tables[req.Name]
+	if !ok {
 		return nil, status.Errorf(codes.NotFound, "table %q not found", req.Name)
 	}
 	delete(s.tables, req.Name)
+
+	// Drop the table's storage too: with persistent storage the table (and its rows) would otherwise be back after
+	// a restart. Requests that still hold the table keep working, on an empty in-memory orphan.
+	tbl.mu.Lock()
+	defer tbl.mu.Unlock()
+	tbl.rows.Close()
+	tbl.rows = LeveldbMemStorage{}.Create(tbl.def)
+	if d, ok := s.storage.(interface{ Delete(tbl *btapb.Table) }); ok {
+		d.Delete(tbl.def)
+	}
 	return &emptypb.Empty{}, nil
 }
 
